@@ -182,7 +182,7 @@ def run_stage(variant, prop, tier, seed, part, total, block, extra=(), hash_mod=
     return res
 
 
-def determinism_recheck(variant, prop, tier, seed, part, total, block, hash_mod, first, extra=()):
+def determinism_recheck(variant, prop, tier, seed, part, total, block, hash_mod, first, extra=(), recheck_block=None):
     """Re-execute the hash-sampled runs in differently shaped worker blocks; every log hash must match."""
     if not hash_mod or not first.hashes:
         return dict(n=0, mismatches=0)
@@ -190,11 +190,12 @@ def determinism_recheck(variant, prop, tier, seed, part, total, block, hash_mod,
     res = Result()
     lock = threading.Lock()
     stop = threading.Event()
-    blk = block * 3 + 7 * hash_mod
+    blk = recheck_block or (block * 3 + 7 * hash_mod)
     blocks = []
     s = 0
     while s < total:
-        blocks.append((s, min(blk, total - s)))
+        if recheck_block is None or s % hash_mod == 0:   # single-run blocks: only the sampled runs need a process
+            blocks.append((s, min(blk, total - s)))
         s += blk
     with cf.ThreadPoolExecutor(max_workers=NPROC) as ex:
         futs = [ex.submit(run_worker_block, binary, prop, tier, seed, part, s, n,
